@@ -180,6 +180,8 @@ def _run_one(job) -> Tuple[str, str, str, List[str]]:
     if rule and not any(r.startswith(rule) for r in rules):
       return name, expect, 'fired-other-rule', rules
     return name, expect, 'fired', rules
+  if getattr(ctx, 'deferred_error', None):
+    return name, expect, 'analysis-error', [ctx.deferred_error]
   return name, expect, 'silent', []
 
 
